@@ -156,6 +156,10 @@ def hermitian_tt(rng, dims, rank, cplx=False, hpd=False, eps=0.5):
         B = total
         total = B.transpose(conjugate=True) @ B
         import scikit_tt.tensor_train as tt
+        if not isinstance(total, TT):  # every mode has size 1: the product collapsed to a scalar
+            cores = [np.ones((1, 1, 1, 1)) for _ in dims]
+            cores[0] = cores[0] * (float(np.real(total)) + eps)
+            return TT(cores)
         total = total + eps * tt.eye(dims)
     return total
 
